@@ -483,6 +483,8 @@ def _tainted_use(t, which):
                 used.append('comparison of %s' % a)
     for e in t.events:
         vals = []
+        if e['k'] == 'bytecmp' and e.get('src') and e['src'][0][0] == 'vdata':
+            used.append('branch on a byte of the variable (compared with %s)' % e['const'])
         if e['k'] == 'fmt':
             vals = e.get('args') or []
         elif e['k'] == 'copy':
